@@ -111,7 +111,7 @@ func init() {
 		Bounds:      map[string]string{"quick": "min policy: 2 nodes x 3 events and 3 nodes x 2 events (first event on node 0 by symmetry), latencies 0..10 s, offsets/tolerance 0..1 s; random: 3 nodes x 3 events; group select: 1-2 nodes, policies random/min/fixed(0,1,-1), requested in {data-udp4, tcp6, dns-udp4}, strict and non-strict, any excluded node, alive flags of every consulted domain symbolic", "thorough": "min policy: 2 nodes x 5 events, 3 nodes x 4 events; group select: all six requested types"},
 		Outside:     []string{"min_avg10 / min_moving_avg differ from min only in snapshotLatencyForPolicy (stubbed)", "SetSelectionPolicy at run time", "concurrent notifications (mutex-protected)"},
 		Assumptions: []string{"a measured node keeps having a measurement", "fastrand arbitrary", "untried health domains are set alive (adversarial)"},
-		QuickBudget: 8 * time.Minute, ThoroughBudget: 60 * time.Minute,
+		QuickBudget: 8 * time.Minute, ThoroughBudget: 20 * time.Minute,
 	}
 	checks["C16"] = &CheckDef{
 		Pkgs:        []string{"./component/outbound"},
@@ -125,7 +125,7 @@ func init() {
 		Bounds:      map[string]string{"quick": "thresholds: 7 network types x arbitrary initial consecutive-failure counts x 3 events of 7 kinds; shared node: 6 types x 3 events of 4 kinds, 2 groups; suppression: nested scopes, 3 muted failures then forced; snapshot: 6 arbitrary alive flags and counts", "thorough": "thresholds with 4 events"},
 		Outside:     []string{"proxy-address escalation (three death transitions): recordProxyFailure is not driven here", "probe I/O, recovery back-off timers", "EnsureReloadSelectionFloor (group level)"},
 		Assumptions: []string{"NotifyHealthCheckResult is a no-op", "latency of a successful probe 1ns..5s"},
-		QuickBudget: 8 * time.Minute, ThoroughBudget: 60 * time.Minute,
+		QuickBudget: 8 * time.Minute, ThoroughBudget: 20 * time.Minute,
 	}
 	checks["C04"] = &CheckDef{
 		Pkgs:        []string{"./component/routing"},
@@ -139,7 +139,7 @@ func init() {
 		Bounds:      map[string]string{"quick": "shapes: two neighbouring single-condition rules with <=2 values each | a two-condition rule followed by a single-condition rule; functions dip/ip/sip, domain (+dip), qname (+dip); negation symbolic; keys '', domain, suffix, contains, keyword, full, geosite/geoip; outbound spellings proxy / proxy(mark:1) / direct", "thorough": "adds three single-condition rules in a row"},
 		Outside:     []string{"geodata file decoding", "SplitRequestRules", "rules with more than two conditions / values"},
 		Assumptions: []string{"geosite/geoip codes expand to fixed lists", "deep copy is structural"},
-		QuickBudget: 8 * time.Minute, ThoroughBudget: 60 * time.Minute,
+		QuickBudget: 8 * time.Minute, ThoroughBudget: 20 * time.Minute,
 	}
 	checks["C01"] = &CheckDef{
 		Pkgs:    []string{"./control"},
@@ -157,7 +157,7 @@ func init() {
 	}
 	checks["C07"] = &CheckDef{
 		Pkgs:    []string{"./component/dns", "./control"},
-		Harness: []string{"component/dns:Verif_C07_request", "component/dns:Verif_C07_response", "control:Verif_C07_reject_ignores_cache", "control:Verif_C07_reask_bound"},
+		Harness: []string{"component/dns:Verif_C07_request", "component/dns:Verif_C07_response", "component/dns:Verif_C07_response_select", "control:Verif_C07_reject_ignores_cache", "control:Verif_C07_reask_bound"},
 		MaxIter: 600,
 		Level:   "other",
 		LevelText: "DNS request and response rule programs of symbolic shape are lowered by the real RulesBuilder.Apply into the real Request/ResponseMatcherBuilder.add* methods with symbolic typed values (query types, answer prefixes, upstream ids), built by the real Build and matched by the real RequestMatcher.Match / ResponseMatcher.Match on a symbolic question (type, answering upstream, 0-2 answer addresses); the solver shows the selected upstream / verdict equal to a first-match evaluator for every question. The real DnsController.HandleWithResponseWriter_ is run with a live cache entry and a request routed to reject (empty answer, cache family dropped, no upstream contacted), and the real dialSend recursion is run against an adversarial ResponseSelect (any verdict at every step): at most MaxDnsLookupDepth upstream queries, failure only by the depth limit.",
@@ -167,7 +167,7 @@ func init() {
 		Bounds:  map[string]string{"quick": "request: {qname|qtype}(<=2 values) && {qname|qtype} then {qname|qtype}(<=2), 2 of 4 upstream targets per rule; response: {ip|upstream|qtype}(<=2) && qname then {ip|upstream}, verdicts accept/reject/upstream; question: symbolic qtype and answering upstream, answers none | one v4 | v6+v4 with symbolic bytes; re-ask chains: every verdict sequence up to the depth limit", "thorough": "all kinds in all three positions, all verdict combinations, any family per answer"},
 		Outside: []string{"network forwarders, TCP fallback", "Dns.RequestSelect/ResponseSelect index range checks", "SplitRequestRules"},
 		Assumptions: []string{"K-LPM (C12)", "K-DOM (C11)", "forwardWithFallback returns an arbitrary well-formed answer"},
-		QuickBudget: 8 * time.Minute, ThoroughBudget: 60 * time.Minute,
+		QuickBudget: 8 * time.Minute, ThoroughBudget: 20 * time.Minute,
 	}
 	checks["C10"] = &CheckDef{
 		Pkgs:    []string{"./control"},
@@ -181,7 +181,7 @@ func init() {
 		Bounds:  map[string]string{"quick": "mirror_long: 4 steps over 2 owners, step alphabet {remove, list address 0, list address 1} with arbitrary bitmap word 0 (first step fixed by symmetry); tracker: 2 arbitrary steps (update with any address subset and any bitmap, or removal, on either owner) + 1 removal-or-simple-update; cache: 2 arbitrary steps over 3 keys (insert with any address subset / exact removal / family removal) + 1 removal", "thorough": "one more arbitrary step in the tracker harness, arbitrary last step in the cache harness, bitmap word 31 symbolic"},
 		Outside: []string{"kernel hash map implementation", "async BPF update worker and its rate limiting (NeedsBpfUpdate)", "janitor / LRU eviction paths (same delete callback)"},
 		Assumptions: []string{"batch operations succeed", "domain matcher returns an arbitrary bitmap per name"},
-		QuickBudget: 8 * time.Minute, ThoroughBudget: 60 * time.Minute,
+		QuickBudget: 8 * time.Minute, ThoroughBudget: 20 * time.Minute,
 	}
 	checks["C11"] = &CheckDef{
 		Pkgs:    []string{"./component/routing/domain_matcher", "./pkg/trie", "./common/bitlist"},
@@ -195,7 +195,7 @@ func init() {
 		Bounds:  map[string]string{"quick": "kinds: set at bit 1 = 1-2 patterns from {a, a.b, .b, ab, b.a, a-b} of any of 3 kinds, set at bit 33 = {a.b} of any kind; names of 1-3 symbolic bytes over {a,b,A,.} with optional trailing dot; trie contract: 2 keys from an 8-key pool, words <=3 bytes over {0,a,b,.}; trie words: 67 keys (3-word tables), every 3-letter query over a..l; bit list: widths 1..17, 6 arbitrary values, one overwrite", "thorough": "names <=4 bytes over {a,b,A,.,-}, 3 keys from a 10-key pool, words <=4 bytes incl. '^' and an invalid byte"},
 		Outside: []string{"regex kind (Go regexp)", "the Aho-Corasick automaton's own correctness", "geosite-scale sets"},
 		Assumptions: []string{"ahocorasick.Matcher.Contains by contract", "runtime.GOMAXPROCS = 8; goroutines of Build run to completion in spawn order"},
-		QuickBudget: 8 * time.Minute, ThoroughBudget: 60 * time.Minute,
+		QuickBudget: 8 * time.Minute, ThoroughBudget: 20 * time.Minute,
 	}
 	checks["C06"] = &CheckDef{
 		Pkgs: []string{"./component/sniffing"},
@@ -210,7 +210,7 @@ func init() {
 		Bounds: map[string]string{"quick": "arbitrary ClientHello: 49-51 symbolic bytes (type/version steered); well-formed hello: names 1-3 bytes over {a,B,-,1}, session id 0/32, 3 extension orders, 1 suite; chunked: one hello shape, cut points {5,6,44,len-1,len} x2; passthrough: 6 symbolic bytes (first byte TLS / G / P / 0), tail in time or late; HTTP: 4 methods x 3 Host positions x 4 key cases x 3 values; QUIC frames: 3 cut points, 6 orders, resend, 1-2 datagrams; QUIC arbitrary: frame A 41 symbolic bytes at offset 0, frame B 4/8 bytes at offset 0/39/41", "thorough": "names <=4, session id 0/1/32, 1-2 suites, passthrough 6/9 free bytes, 6 QUIC cut points, QUIC arbitrary offsets A{0,1,38} x B{0,39,41,42,45,63}"},
 		Outside: []string{"QUIC header protection / AEAD decryption (crypto not encoded)", "hellos longer than the bounds, more than 3 extensions", "the async read path used only for readers without deadlines", "UDP datagram replay order in control/udp.go", "HTTP heads split over reads (the statement only claims one read)"},
 		Assumptions: []string{"model socket c06Conn: chunks arrive as given; a read beyond them returns a net.Error with Timeout()=true; SetReadDeadline always succeeds", "time.Now abstracted to an arbitrary instant"},
-		QuickBudget: 10 * time.Minute, ThoroughBudget: 60 * time.Minute,
+		QuickBudget: 10 * time.Minute, ThoroughBudget: 20 * time.Minute,
 	}
 	checks["C20"] = &CheckDef{
 		Pkgs: []string{"./cmd", "./component/outbound/dialer"},
@@ -230,21 +230,22 @@ func init() {
 		Bounds: map[string]string{"quick": "3 signals + 1 follow-up request, 4 worker exits per request, <=1 preemption (plus all orders at blocking points); counter: 4 begin/end operations, 2 concurrent ends with <=2 preemptions; CFG walks of <= 2x|blocks| steps (132 and 80)", "thorough": "<=2 preemptions; 6 begin/end operations"},
 		Outside: []string{"the body of each reload stage (config load, control-plane construction, listener hand-over, retirement drain)", "OS signal delivery and coalescing in the runtime", "more than three signals in flight", "data races on non-atomic variables"},
 		Assumptions: []string{"goroutines switch only at synchronisation operations (channel, mutex, atomic, sync.Map, timers)", "progress file replaced by a variable; suppression hooks in package cmd replaced by counters (the real counter is checked in part 2)", "CFG queries: branch conditions are free, so an infeasible walk could be reported (none is on the current tree)"},
-		QuickBudget: 10 * time.Minute, ThoroughBudget: 60 * time.Minute,
+		QuickBudget: 10 * time.Minute, ThoroughBudget: 20 * time.Minute,
 	}
 	checks["C13"] = &CheckDef{
 		Pkgs: []string{"./control"}, Splice: true,
-		Harness: []string{"control:Verif_C13_taskpool", "control:Verif_C13_taskpool_recycle", "control:Verif_C13_tuples", "control:Verif_C13_tuples_handover", "control:Verif_C13_overflow"},
+		Harness: []string{"control:Verif_C13_taskpool", "control:Verif_C13_taskpool_recycle", "control:Verif_C13_tuples", "control:Verif_C13_tuples_handover", "control:Verif_C13_overflow", "control:Verif_C13_endpoint_pool", "control:Verif_C13_endpoint_cooldown"},
+		Stubs: map[string]string{"(*github.com/daeuniverse/dae/control.UdpEndpoint).prewarmResponseConn": "noop", "github.com/daeuniverse/dae/control.reportUdpEndpointDialCreateFailure": "noop"},
 		MaxIter: 1000,
 		Level:   "other",
-		LevelText: "The real UdpTaskPool (EmitTask, acquireQueue, enqueue, convoy with its idle timer, tryDeleteQueue, channel recycling through sync.Pool) and the real conn-state tuple tracker (Retain / BeginRelease / FinalizeRelease / Forget with waiters on an in-flight deletion, through controlPlaneCore.Retain/Release/TransferRetainedUdpConnStateTuples) run as goroutines under the engine's schedule exploration: every interleaving at blocking operations plus one preemption at any atomic / mutex / channel / sync.Map / timer operation, the idle timer free to fire whenever its waiter is scheduled; schedules are symbolic inputs enumerated by the solver and pinned in the replay file. Obligations: every accepted task runs exactly once, tasks of a flow never overlap and keep each producer's order, nothing is lost in or run from a recycled channel; a kernel flow entry is deleted only when no owner holds its tuple, is gone once the last owner has gone (also when a reload moved ownership to the next generation's tracker), nothing stays tracked and no goroutine stays blocked on a deletion. A genuine defect was found with this check and repaired (see known_findings.json): the idle collection could remove a queue that still held a task.",
-		LevelNote: "Trusted: go/ssa, executor and its cooperative thread model (goroutines switch only at synchronisation operations: data-race-free code assumed; an unbuffered channel is a one-slot buffer), z3. The endpoint pool (GetOrCreate, single dial, failure cool-down, retirement, janitor) is not covered: it needs the dialer, sockets and the reply loop, which the executor does not encode.",
+		LevelText: "The real UdpTaskPool (EmitTask, acquireQueue, enqueue, convoy with its idle timer, tryDeleteQueue, channel recycling through sync.Pool) and the real conn-state tuple tracker (Retain / BeginRelease / FinalizeRelease / Forget with waiters on an in-flight deletion, through controlPlaneCore.Retain/Release/TransferRetainedUdpConnStateTuples) run as goroutines under the engine's schedule exploration: every interleaving at blocking operations plus one preemption at any atomic / mutex / channel / sync.Map / timer operation, the idle timer free to fire whenever its waiter is scheduled; schedules are symbolic inputs enumerated by the solver and pinned in the replay file. Obligations: every accepted task runs exactly once, tasks of a flow never overlap and keep each producer's order, nothing is lost in or run from a recycled channel; a kernel flow entry is deleted only when no owner holds its tuple, is gone once the last owner has gone (also when a reload moved ownership to the next generation's tracker), nothing stays tracked and no goroutine stays blocked on a deletion. The real UdpEndpointPool.GetOrCreate / createEndpointLocked / retire / Close / cacheFailureLocked run against a model dialer and model packet sockets: two concurrent first packets of one source cause a single dial and share the endpoint, a later packet reuses it, a write error retires it and closes its transport exactly once, the retired endpoint is never handed out again (a new dial follows), closing twice closes once; after a failed dial the source is refused without dialling until the cool-down has passed on an arbitrary clock. Two genuine defects were found with this check and repaired (see known_findings.json): the idle collection could remove a queue that still held a task, and an overflowing burst could overtake older tasks in the channel.",
+		LevelNote: "Trusted: go/ssa, executor and its cooperative thread model (goroutines switch only at synchronisation operations: data-race-free code assumed; an unbuffered channel is a one-slot buffer), z3. Endpoint pool: the reply path to the client (Anyfrom sockets; prewarmResponseConn is stubbed), dialer health reporting (stubbed), the janitor, health invalidation epochs and generation adoption are not covered.",
 		Technique: techniqueText,
 		Explanation: "Bounded schedule exploration (symbolic schedules, bounded preemptions) of the UDP task pool and the conn-state tuple tracker.",
-		Bounds: map[string]string{"quick": "task pool: 2 producers, 3 tasks, one or two flow keys, 1 preemption, each timer fires <=2 times; overflow: bursts of 1/128/129/257/430 tasks for one flow before the worker runs, 0-2 later tasks (deterministic schedule); tuples: 3 owners over 2 tuples (1 preemption), hand-over of 1 tuple between two generations with a concurrent close", "thorough": "2 preemptions for the task pool"},
-		Outside: []string{"UdpEndpointPool (GetOrCreate, dial de-duplication, failure cool-down, retire, janitor, adoptGeneration)", "overflow FIFO interleaved with concurrent producers (the burst harness fills it before the worker runs)", "task panics", "pool Close/Reset racing with producers", "data races on non-atomic fields"},
-		Assumptions: []string{"goroutines switch only at synchronisation operations", "BpfMapBatchDelete replaced by a shadow table", "the kernel re-creates a flow entry once an owner has retained its tuple"},
-		QuickBudget: 10 * time.Minute, ThoroughBudget: 60 * time.Minute,
+		Bounds: map[string]string{"quick": "task pool: 2 producers, 3 tasks, one or two flow keys, 1 preemption, each timer fires <=2 times; overflow: bursts of 1/128/129/257/430 tasks for one flow before the worker runs, 0-2 later tasks (deterministic schedule); endpoint pool: 2 concurrent GetOrCreate on one key (all interleavings at blocking points, the dial yields), then reuse, write error, re-dial, double close; cool-down on an arbitrary clock; tuples: 3 owners over 2 tuples (1 preemption), hand-over of 1 tuple between two generations with a concurrent close", "thorough": "2 preemptions for the task pool"},
+		Outside: []string{"UdpEndpointPool janitor, InvalidateDialerNetworkType, adoptGeneration, Reset/Close of the pool, reply loop to the client", "overflow FIFO interleaved with concurrent producers (the burst harness fills it before the worker runs)", "task panics", "pool Close/Reset racing with producers", "data races on non-atomic fields"},
+		Assumptions: []string{"goroutines switch only at synchronisation operations", "BpfMapBatchDelete replaced by a shadow table", "model dialer / packet socket; prewarmResponseConn and reportUdpEndpointDialCreateFailure stubbed", "the kernel re-creates a flow entry once an owner has retained its tuple"},
+		QuickBudget: 10 * time.Minute, ThoroughBudget: 20 * time.Minute,
 	}
 	checks["C17"] = &CheckDef{
 		Pkgs: []string{"./component/dns", "./common"},
@@ -259,25 +260,25 @@ func init() {
 		Bounds: map[string]string{"quick": "29..34 rules + fallback, limit 32, kinds of rules 28.. symbolic (qname/qtype), symbolic 16-bit query type; include paths: 5 symbolic bytes over {a . /} under /etc/dae", "thorough": "include paths of 7 symbolic bytes"},
 		Outside: []string{"config text -> AST (ANTLR)", "config.SectionParser / ParamParser (reflection)", "Merger.dfsMerge: order, cycles, globbing, permissions", "symlinks (EnsureFileInSubDir is lexical)", "the main routing section's kernel-side capacity (rejected by the kernel map in production)"},
 		Assumptions: []string{"consts.MaxMatchSetLen lowered to 32 (it is a variable; all tables are sized from it)"},
-		QuickBudget: 10 * time.Minute, ThoroughBudget: 60 * time.Minute,
+		QuickBudget: 10 * time.Minute, ThoroughBudget: 20 * time.Minute,
 	}
 	checks["C09"] = &CheckDef{
 		Pkgs: []string{"./control"}, Splice: true,
-		Harness: []string{"control:Verif_C09_forwarder_lifetime", "control:Verif_C09_cached_reply_id", "control:Verif_C09_udp_upstream_id"},
+		Harness: []string{"control:Verif_C09_forwarder_lifetime", "control:Verif_C09_cached_reply_id", "control:Verif_C09_udp_upstream_id", "control:Verif_C09_singleflight"},
 		MaxIter: 2000,
 		Level:   "other",
-		LevelText: "Three clauses of the property on the real code. (1) 'A retired upstream connection is closed exactly once, after its last in-flight query': cachedDnsForwarder.beginUse / endUse / retire / closeNow with two borrowing queries and a retirement as goroutines under schedule exploration (every interleaving at blocking points plus up to two preemptions at any atomic operation, schedules as symbolic inputs): an admitted query never sees its forwarder closed, the forwarder is closed exactly once when retired and idle, a retired forwarder admits nobody. (2) 'Each reply carries that client's transaction ID': DnsController.writeCachedResponse on an arbitrary packed answer (12-20 symbolic bytes) and an arbitrary client ID: the datagram sent is the cached answer with exactly the first two bytes replaced, from the queried server's address to the client, and the cached bytes are untouched. (3) 'Whatever an upstream does (answer late, twice, for a different question)': DoUDP.ForwardDNS with the real connection pool against a model socket delivering up to three datagrams with arbitrary IDs: exactly the first datagram carrying the request's ID is returned, none is made up otherwise. A genuine defect was found with this check and repaired (see known_findings.json): endUse could close a retired forwarder under a query admitted just before the retirement.",
-		LevelNote: "Partial claim. Not covered: the concurrent Handle path as a whole (singleflight coalescing and per-waiter copies, TCP pipelining with ID reuse, UDP->TCP fallback, caching under the right key - the last is covered from the cache side by C07/C08). Trusted: go/ssa, executor and its thread model (switches only at synchronisation operations), z3, miekg/dns Pack/Unpack as executed.",
+		LevelText: "Three clauses of the property on the real code. (1) 'A retired upstream connection is closed exactly once, after its last in-flight query': cachedDnsForwarder.beginUse / endUse / retire / closeNow with two borrowing queries and a retirement as goroutines under schedule exploration (every interleaving at blocking points plus up to two preemptions at any atomic operation, schedules as symbolic inputs): an admitted query never sees its forwarder closed, the forwarder is closed exactly once when retired and idle, a retired forwarder admits nobody. (2) 'Each reply carries that client's transaction ID': DnsController.writeCachedResponse on an arbitrary packed answer (12-20 symbolic bytes) and an arbitrary client ID: the datagram sent is the cached answer with exactly the first two bytes replaced, from the queried server's address to the client, and the cached bytes are untouched. (3) 'Whatever an upstream does (answer late, twice, for a different question)': DoUDP.ForwardDNS with the real connection pool against a model socket delivering up to three datagrams with arbitrary IDs: exactly the first datagram carrying the request's ID is returned, none is made up otherwise. (4) Concurrent identical questions: two clients call the real HandleWithResponseWriter_ at the same time (real x/sync singleflight, resolution replaced by a yielding stub returning an uncacheable NXDOMAIN), all interleavings at blocking operations: both are served exactly once under their own symbolic IDs and the replies are separate message objects. A genuine defect was found with this check and repaired (see known_findings.json): endUse could close a retired forwarder under a query admitted just before the retirement.",
+		LevelNote: "Partial claim. Not covered: TCP pipelining with ID reuse, UDP->TCP fallback, caching under the right key - the last is covered from the cache side by C07/C08). Trusted: go/ssa, executor and its thread model (switches only at synchronisation operations), z3, miekg/dns Pack/Unpack as executed.",
 		Technique: techniqueText,
 		Explanation: "Bounded symbolic execution and schedule exploration of DNS reply ID handling, upstream ID filtering and forwarder lifetime.",
-		Bounds: map[string]string{"quick": "2 borrowers + 1 retire, <=2 preemptions; cached answers of 12/16/20 symbolic bytes, symbolic 16-bit IDs; 1-3 upstream datagrams with symbolic IDs", "thorough": "same (3 preemptions are out of reach within the budget)"},
-		Outside: []string{"singleflight coalescing and waiter fan-out", "pipelined TCP / DoT / DoH / DoQ forwarders", "UDP to TCP fallback", "ID collisions between concurrent clients on one pooled socket (each borrower owns its socket while it waits)"},
+		Bounds: map[string]string{"quick": "2 borrowers + 1 retire, <=2 preemptions; cached answers of 12/16/20 symbolic bytes, symbolic 16-bit IDs; 1-3 upstream datagrams with symbolic IDs; 2 concurrent clients on one uncached question", "thorough": "same (3 preemptions are out of reach within the budget)"},
+		Outside: []string{"the UDP packet-send branch after singleflight (needs sendPkt)", "pipelined TCP / DoT / DoH / DoQ forwarders", "UDP to TCP fallback", "ID collisions between concurrent clients on one pooled socket (each borrower owns its socket while it waits)"},
 		Assumptions: []string{"goroutines switch only at synchronisation operations", "sendPkt replaced by a recorder; the upstream socket is a model that returns the given datagrams then times out"},
-		QuickBudget: 10 * time.Minute, ThoroughBudget: 60 * time.Minute,
+		QuickBudget: 10 * time.Minute, ThoroughBudget: 20 * time.Minute,
 	}
 	checks["C05"] = &CheckDef{
 		Pkgs: []string{"./control"}, Splice: true,
-		Harness: []string{"control:Verif_C05_relay", "control:Verif_C05_relay_error"},
+		Harness: []string{"control:Verif_C05_relay", "control:Verif_C05_relay_error", "control:Verif_C05_prefetch"},
 		MaxIter: 2000,
 		Level:   "other",
 		LevelText: "The real relay (RelayTCPContextWithRecords -> relayCore.run with its two direction goroutines, context watcher and forceClose, defaultRelayCopyEngine.Copy, tryRelayGatherWrite with TakeRelaySegments / TakeRelayPrefix / CopyRelayRemainder, relayCopyLoop / relayCopyDirect) runs between two model sockets under the engine's schedule exploration (every interleaving of client, upstream, the two copy directions and the watcher at blocking operations; schedules are symbolic inputs). The client side is plain, or wrapped the way handleConn wraps it: prefixedConn with read-ahead bytes, bufioConn after a DNS-detection Peek, or ConnSniffer over a prefixedConn after a failed sniff. Client and upstream each send two segments of symbolic bytes and shut down their sending side. Obligations: each side receives exactly the other's byte stream (read-ahead included, no loss, duplication or reordering); each end of stream is passed on as exactly one write-shutdown and nothing is written after it; the relay finishes without error. A second harness resets the upstream at either write: the relay does not hang, reports the error and closes both connections. A genuine defect was found with this check and repaired (see known_findings.json): the wrappers hid CloseWrite, so the upstream's end of stream reached a client behind a sniffing wrapper only after the 10 s half-close timeout.",
@@ -287,7 +288,7 @@ func init() {
 		Bounds: map[string]string{"quick": "2 segments of 2-3 symbolic bytes per direction, 0/4 read-ahead bytes, 4 client-side wrapper stacks, all interleavings at blocking operations (no preemption inside a copy step); error harness: failure at the 1st or 2nd upstream write", "thorough": "same"},
 		Outside: []string{"splice / writev fast paths on real TCP sockets", "handleConn wiring, DNS-over-TCP fast path, prefetch timing", "half-close grace period expiry (the 10 s timer is armed but time does not advance in the model)", "MPTCP, proxy-protocol outbound connections"},
 		Assumptions: []string{"model socket: segments arrive on a channel, a read deadline of time.Unix(1,0) or Close unblocks a pending read with a timeout error", "the clock is arbitrary but later than the epoch sentinel the relay uses as 'deadline in the past'"},
-		QuickBudget: 10 * time.Minute, ThoroughBudget: 60 * time.Minute,
+		QuickBudget: 10 * time.Minute, ThoroughBudget: 20 * time.Minute,
 	}
 	checks["ZZ"] = &CheckDef{
 		Pkgs: []string{"./zz_selftest"}, Hidden: true,
